@@ -93,4 +93,34 @@ TolRot(lmax) == IF lmax <= 6 THEN 157286        \* 0.15   (measured <= 0.042)
 Tol(w, lmax) == IF HasRotation(w) THEN TolRot(lmax) ELSE TolExact
 AbsV(x) == IF x < 0 THEN -x ELSE x
 Within(d, ref, tol) == Len(d) = Len(ref) /\ \A i \in DOMAIN d : AbsV(d[i] - ref[i]) <= tol
+
+(* ---- a molecule (or atom) in its crystal: different listings of one P1 crystal ------------------------------------- *)
+(* A listing is [cell |-> <<a, b, c>> (orthorhombic, integer units of 0.005 A), atoms |-> Seq([z, p])].  The descriptors of    *)
+(* the molecules / atoms of a crystal (Crystal.molecular_shape_descriptors, Crystal.atomic_shape_descriptors) belong to the    *)
+(* infinite arrangement, not to the listing: moving the cell origin ("S"), listing the atoms in another order ("P"), or       *)
+(* listing a k-fold cell along an axis ("X") gives the same set of descriptor rows (up to the translation tolerance).         *)
+CShifts == << <<37, -211, 94>>, <<-640, 15, 333>>, <<5, 5, -700>>, <<1200, -900, 411>> >>
+CActOK(c, a) ==
+  CASE a[1] = "S" -> a[2] \in DOMAIN CShifts
+    [] a[1] = "P" -> a[2] \in 1..(Len(c.atoms) - 1)
+    [] a[1] = "X" -> a[2] \in Idx /\ Len(c.atoms) <= 12
+    [] OTHER -> FALSE
+CAct(c, a) ==
+  CASE a[1] = "S" -> [cell |-> c.cell, atoms |-> MoveAll(c.atoms, LAMBDA p : [k \in Idx |-> p[k] + CShifts[a[2]][k]])]
+    [] a[1] = "P" -> [cell |-> c.cell, atoms |-> Swap(c.atoms, a[2])]
+    [] a[1] = "X" -> [cell |-> [k \in Idx |-> IF k = a[2] THEN 2 * c.cell[k] ELSE c.cell[k]],
+                      atoms |-> c.atoms \o MoveAll(c.atoms, LAMBDA p : [k \in Idx |-> IF k = a[2] THEN p[k] + c.cell[k] ELSE p[k]])]
+RECURSIVE CApplyWord(_, _)
+CApplyWord(c, w) == IF w = <<>> THEN c ELSE CApplyWord(CAct(c, w[1]), Tail(w))
+RECURSIVE CWordOK(_, _)
+CWordOK(c, w) == w = <<>> \/ (CActOK(c, w[1]) /\ CWordOK(CAct(c, w[1]), Tail(w)))
+(* every row of one descriptor table is matched by a row of the other *)
+RowsMatch(A, B, tol) == /\ \A i \in DOMAIN A : \E j \in DOMAIN B : Within(A[i], B[j], tol)
+                        /\ \A j \in DOMAIN B : \E i \in DOMAIN A : Within(A[i], B[j], tol)
+(* the listed atoms form separate molecules: an atom of one cell is at least `clear` units away from every atom of the 26
+   neighbouring cells that is not its own image ... kept simple: from every atom of every other cell *)
+PeriodicClear(c, clear) ==
+  \A i \in DOMAIN c.atoms : \A j \in DOMAIN c.atoms :
+    \A h \in {<<x, y, z>> : x \in -1..1, y \in -1..1, z \in -1..1} \ {<<0, 0, 0>>} :
+      D2(c.atoms[i].p, [k \in Idx |-> c.atoms[j].p[k] + h[k] * c.cell[k]]) >= clear * clear
 =============================================================================
